@@ -96,3 +96,23 @@ GROUPS['c29sa'] = dict(
              K29('shiftAccelerationFromTo', 4, 'sa_shiftAccelerationFromTo', 'shiftAccelerationFromTo({0},{1},{2},{3})'),
              K29('findRelativeVelocityInF', 3, 'sa_findRelativeVelocityInF', 'findRelativeVelocityInF({0},{1},{2})'),
              K29('findRelativeAccelerationInF', 5, 'sa_findRelativeAccelerationInF', 'findRelativeAccelerationInF({0},{1},{2},{3},{4})')])
+# the float overloads of the same helpers (C41 proves them textually identical to the double ones; not run)
+def STEPF(name, n, sig):
+    return dict(name=name, nparams=n, coq='k_' + name, cxx=None, sig=sig)
+GROUPS['stepf'] = dict(
+    source=SCALAR_H, tu='#include "SimTKcommon.h"', filter='step', container=('free', None),
+    kernels=[STEPF('stepUp', 1, 'float (float)'), STEPF('dstepUp', 1, 'float (float)'),
+             STEPF('d2stepUp', 1, 'float (float)'), STEPF('d3stepUp', 1, 'float (float)'),
+             STEPF('stepDown', 1, 'float (float)'), STEPF('dstepDown', 1, 'float (float)'),
+             STEPF('d2stepDown', 1, 'float (float)'), STEPF('d3stepDown', 1, 'float (float)'),
+             STEPF('stepAny', 5, 'float (float'), STEPF('dstepAny', 4, 'float (float'),
+             STEPF('d2stepAny', 4, 'float (float'), STEPF('d3stepAny', 4, 'float (float')])
+# C29: unit-inertia shape factories (static members of UnitInertia_)
+GROUPS['c29ui'] = dict(
+    source=_MP_H29, tu='#include "SimTKcommon.h"', filter='UnitInertia_', container=('classtemplate', 'UnitInertia_'),
+    kernels=[K29('sphere', 1, 'ui_sphere', 'UnitInertia::sphere({0}).asSymMat33()'),
+             K29('cylinderAlongZ', 2, 'ui_cylinderAlongZ', 'UnitInertia::cylinderAlongZ({0},{1}).asSymMat33()'),
+             K29('cylinderAlongY', 2, 'ui_cylinderAlongY', 'UnitInertia::cylinderAlongY({0},{1}).asSymMat33()'),
+             K29('cylinderAlongX', 2, 'ui_cylinderAlongX', 'UnitInertia::cylinderAlongX({0},{1}).asSymMat33()'),
+             K29('brick', 3, 'ui_brick', 'UnitInertia::brick({0},{1},{2}).asSymMat33()'),
+             K29('ellipsoid', 3, 'ui_ellipsoid', 'UnitInertia::ellipsoid({0},{1},{2}).asSymMat33()')])
